@@ -1,7 +1,7 @@
 #!/usr/bin/env python3
 """dev helper: confirm seeded defects and run the checks against them.
 
-usage: seedtest.py import Cxx /tmp/wt_Cxx/_seed      copy seeds into /verif/seeded/Cxx/seedK/{patch.diff,demo.py,meta.json}
+usage: seedtest.py import Cxx /tmp/wt_Cxx/_seed [offset]     copy seeds into /verif/seeded/Cxx/seedK/{patch.diff,demo.py,meta.json}
        seedtest.py run Cxx [seedK ...] [--checks C01,C02] [--tier quick]
 For each seed: the demo must exit 0 on the clean /repo and 1 with the patch applied (git -C /repo apply; undone with
 git -C /repo checkout -- . afterwards, always).  Then the listed checks (default: the seed's own property) are run on the patched
@@ -30,10 +30,10 @@ def clean_repo():
     return out.strip() == ""
 
 
-def do_import(prop, src):
+def do_import(prop, src, offset=0):
     for patch in sorted(glob.glob(os.path.join(src, "seed*.patch"))):
         k = re.search(r"seed(\d+)\.patch", patch).group(1)
-        dst = os.path.join(VERIF, "seeded", prop, f"seed{k}")
+        dst = os.path.join(VERIF, "seeded", prop, f"seed{int(k) + offset}")
         os.makedirs(dst, exist_ok=True)
         shutil.copy(patch, os.path.join(dst, "patch.diff"))
         for a, b in ((f"seed{k}_demo.py", "demo.py"), (f"seed{k}_meta.json", "meta.json")):
@@ -86,7 +86,7 @@ def do_run(prop, seeds, checks, tier):
 
 if __name__ == "__main__":
     if sys.argv[1] == "import":
-        do_import(sys.argv[2], sys.argv[3])
+        do_import(sys.argv[2], sys.argv[3], int(sys.argv[4]) if len(sys.argv) > 4 else 0)
     else:
         prop = sys.argv[2]
         args = sys.argv[3:]
